@@ -42,7 +42,7 @@ def init(ctx):
 def gen_cases(ctx):
     for inp in ctx.corpus():
         yield inp
-    n = ctx.n(150, 2500)
+    n = ctx.n(150, 1200)
     for i in range(n):
         rng = ctx.rng("movie", i)
         mv = linkcommon.gen_movie(rng, thorough=ctx.thorough, plant_history=(i % 2 == 0))
